@@ -14,10 +14,12 @@
    Close at any point, Data on connections never opened or already closed, empty reads. *)
 From JT.Base Require Import Prelude.
 From JT.Model Require Import Frame Unpack Subpkg Server.
-From JT.Model Require Reply Attach.
+From JT.Model Require Reply Attach Total_msgs.
 From JT.Proofs Require Import Server_proofs.
 
-(* ---------------- the JT808 server never dies ---------------- *)
+(* ---------------- no panic in the JT808 server's connection code ---------------- *)
+(* Crash = a Panic of the modelled code (index / slice out of range, nil dereference).  Death by resource
+   exhaustion is outside the model: findings C10/808/memory-exhaustion, C10/808/unbounded-buffer, C10/att/unbounded-buffer *)
 (* parse_all = false: default handlers; parse_all = true: handlers that Parse every body in the read
    callback (README pattern): location reports by the model of C08, the reply-path types by those of C06 /
    C15 / C16, every other registered type by C03's checked model of protocol/model (Total_msgs.parse_msg) *)
@@ -25,19 +27,37 @@ Theorem C10_808_no_crash : forall parse_all evs, outcome808 (run808 parse_all ev
 Proof. exact no_crash_808. Qed.
 Print Assumptions C10_808_no_crash.
 
-(* ---------------- the attachment server never dies ---------------- *)
+(* ---------------- no panic in the attachment server's connection code ---------------- *)
 (* d = the configured dialect; the default data handler and the DEFAULT file handler (its OnEvent runs
    after every stage and once more when the connection ends, whatever the stage) *)
+(* every id of createDefaultHandle has a model behind handler_parse_chk (7 by the location / reply-path models, 21 by
+   C03's parse_msg): its "unknown id" answer is never what a registered type gets *)
+Theorem C10_parse_all_covers_registered :
+  forallb (fun id => special_id id || existsb (N.eqb id) Total_msgs.modelled_ids) (map fst Reply.default_handles) = true.
+Proof. exact parse_all_covers_registered. Qed.
+Print Assumptions C10_parse_all_covers_registered.
+
 Theorem C10_att_no_crash : forall d evs, outcomeatt (runatt d evs) <> Crash.
 Proof. exact no_crash_att. Qed.
 Print Assumptions C10_att_no_crash.
 
 (* ---------------- isolation ---------------- *)
-(* attachment server: what connection c' receives does not depend on the events of any other connection c *)
+(* attachment server: everything connection c' causes - the bytes written to it, whether its run() stopped reading after
+   a fatal error, the directory and files its final event hands to os.WriteFile - does not depend on the events of
+   any other connection c.  (What is on disk afterwards is the union of those writes: C10_att_saves_own_directory says
+   they go under ./<terminal number of the connection's own last message>/, so only connections presenting the SAME
+   terminal number can touch the same file - the attachment protocol has no registry and no authentication, the
+   number is the identity.) *)
 Theorem C10_isolation_att : forall d evs c c', c' <> c ->
   seenatt c' (runatt d evs) = seenatt c' (runatt d (without c evs)).
 Proof. exact isolation_att. Qed.
 Print Assumptions C10_isolation_att.
+
+Theorem C10_att_saves_own_directory : forall c k dir files, In (c, ASaved dir files) (att_saves c k) ->
+  exists m, Attach.s_recent k = Some m /\ dir = phone_of m /\
+  forall p, In p files -> exists nm, JT.Model.Paths.accepted nm = true /\ fst p = JT.Model.Paths.save_path (phone_of m) nm.
+Proof. exact att_saves_shape. Qed.
+Print Assumptions C10_att_saves_own_directory.
 
 (* JT808 server: the frames written to c' and whether the server ended c' do not depend on the events of
    c - provided that whenever another connection is served it has already joined the registry or c holds
@@ -82,9 +102,23 @@ Print Assumptions C10_registry_one_owner.
 
 (* a connection that owns no key at any time - it never joined, or whatever it claimed was refused - is unclaimed *)
 Theorem C10_unclaimed_keyless : forall parse_all c evs s,
-  (forall pre, holds_no_key c (fold_left (step808 parse_all) pre s) = true) -> unclaimed parse_all c s evs = true.
+  never_owns parse_all c s evs = true -> unclaimed parse_all c s evs = true.
 Proof. exact unclaimed_keyless. Qed.
 Print Assumptions C10_unclaimed_keyless.
+
+(* never_owns is about the prefixes of THIS run: after each of them c holds no key *)
+Theorem C10_never_owns_meaning : forall parse_all c s evs, never_owns parse_all c s evs = true ->
+  forall n, holds_no_key c (fold_left (step808 parse_all) (firstn n evs) s) = true.
+Proof. exact never_owns_prefixes. Qed.
+Print Assumptions C10_never_owns_meaning.
+
+(* hence: a hostile connection that owns no key during the run - whatever it sends, whatever keys it claims, however
+   it ends - leaves no trace in what any other connection is written or in whether it is ended *)
+Theorem C10_keyless_connection_invisible : forall parse_all evs c c', c' <> c ->
+  never_owns parse_all c init808 evs = true ->
+  seen808 c' (run808 parse_all evs) = seen808 c' (run808 parse_all (without c evs)).
+Proof. exact isolation_808_keyless. Qed.
+Print Assumptions C10_keyless_connection_invisible.
 
 (* the registry consults at most one key per read: the one of the first message that reaches the join *)
 Theorem C10_one_key_per_read : forall parse_all t1 t2 now k d,
@@ -95,7 +129,7 @@ Print Assumptions C10_one_key_per_read.
 
 (* a connection that never joins (garbage, broken frames, unknown ids, only 0x8003) satisfies iso_ok *)
 Theorem C10_iso_unjoined : forall parse_all c evs s,
-  (forall pre, holds_no_key c (fold_left (step808 parse_all) pre s) = true) -> iso_ok parse_all c s evs = true.
+  never_owns parse_all c s evs = true -> iso_ok parse_all c s evs = true.
 Proof. exact iso_ok_unjoined. Qed.
 Print Assumptions C10_iso_unjoined.
 
@@ -171,6 +205,17 @@ Example C10_ownership_is_visible :
   (* the other way round the claimant is refused and the owner is untouched *)
   unclaimed false 2 init808 evs = true /\
   seen808 1 (run808 false evs) = seen808 1 (run808 false (without 2 evs)).
+Proof. vm_compute. repeat split; reflexivity. Qed.
+
+(* a REFUSED claimant satisfies the hypotheses: connection 1 owns terminal 012345678901; connections 2 and 3 claim
+   the same number, each is ended and never owns a key; removing connection 2 changes nothing for 1 and 3 *)
+Example C10_refused_claimant :
+  let evs := [Connect 1; Data 1 0 ex_hb; Connect 2; Data 2 0 ex_hb; Data 1 9 ex_hb; Connect 3; Data 3 4 ex_hb; Data 2 5 ex_hb] in
+  never_owns false 2 init808 evs = true /\ unclaimed false 2 init808 evs = true /\
+  snd (seen808 2 (run808 false evs)) = true /\ snd (seen808 3 (run808 false evs)) = true /\
+  map o_seq (fst (seen808 1 (run808 false evs))) = [0; 1] /\
+  seen808 1 (run808 false evs) = seen808 1 (run808 false (without 2 evs)) /\
+  seen808 3 (run808 false evs) = seen808 3 (run808 false (without 2 evs)).
 Proof. vm_compute. repeat split; reflexivity. Qed.
 
 (* a client that pipelines heartbeats, stops receiving (every later conn.Write fails) and goes away: the
